@@ -216,7 +216,7 @@ def ray_items(tier, mi, me, rs):
 
 def point_items(tier, mi, me, rs):
     if tier == "thorough":
-        pts = [P for P in PTS_ALL if any(x % 4 for x in P)]
+        pts = [P for P in PTS_ALL if sum(1 for x in P if x % 2) >= 2]
     else:
         near = [v for v in me["verts"] if all(-2 <= x <= 5 for x in v)]
         lo, hi = np.min(near, axis=0) * 4, np.max(near, axis=0) * 4
@@ -605,7 +605,7 @@ def main(argv):
             "thorough: per mesh every ray (origin, direction) with origin in {-2..5}^3, the half-odd points "
             "{-3/2..9/2}^3 or the quarter points {-7/4, -3/4, .. 21/4}^3 and direction in {-2..2}^3 \\ 0, and "
             "every quarter-lattice point of {-7/4..21/4}^3 "
-            "that is not an integer point" if big else
+            "with at least two odd-quarter coordinates" if big else
             "quick: per mesh a seeded sample of rays (origins {-2..5}^3, half-odd {-3/2..9/2}^3 and odd-quarter "
             "{-7/4..21/4}^3, directions {-2..2}^3 \\ 0): ~2300 random (origin, direction) pairs aimed through the "
             "bounding box of the near bodies, 400 unaimed ones, all six axis directions x up to 160 origins; and "
